@@ -176,3 +176,18 @@ def path_fraction(prev: int, close: int, lower: int, upper: int) -> Fraction:
     lo, hi = min(prev, close), max(prev, close)
     ov = max(0, min(hi, upper) - max(lo, lower))
     return Fraction(ov, abs(close - prev))
+
+
+def cap_violations(ctx, per_key=3):
+    """keep at most `per_key` violations per key so that one frequent cause cannot crowd out the others"""
+    if getattr(ctx, "_uni_capped", False):
+        return
+    seen, orig = {}, ctx.violate
+
+    def violate(key, what, replay):
+        seen[key] = seen.get(key, 0) + 1
+        ctx.notes["violations_" + key] = seen[key]
+        if seen[key] <= per_key:
+            orig(key, what, replay)
+    ctx.violate = violate
+    ctx._uni_capped = True
